@@ -114,6 +114,51 @@ def wfFrom : Bool → List Seg → Bool
 /-- the segment list is expressible in the notation -/
 def wfSegs (segs : List Seg) : Bool := wfFrom false segs
 
+/-- What `YAMLPath(text).unescaped` holds for a written list: the same segments with their texts *as
+written* (escapes kept; a regular expression is written raw, so it is kept as it is). -/
+def keepEsc (sep : Char) : Seg → Seg
+  | (.key, .str k) => (.key, .str (escText sep k))
+  | (.anchor, .str a) => (.anchor, .str (escText sep a))
+  | (.search, .search inv m attr term) =>
+    (.search, .search inv m (escText sep attr) (if m = .regex then term else escText sep term))
+  | (.keywordSearch, .keyword inv kw ps) => (.keywordSearch, .keyword inv kw (escText sep ps))
+  | (.collector, .collector e op) => (.collector, .collector (escText sep e) op)
+  | s => s
+
+def isInterColl : Seg → Bool
+  | (.collector, .collector _ .inter) => true
+  | _ => false
+
+def isEmptyColl : Seg → Bool
+  | (.collector, .collector [] _) => true
+  | _ => false
+
+/-- `mm`: the parser may still be looking for an anchor mark (`&`).  That is so at the start of a
+forward-slash path and stays so only across collectors with an empty expression `()`; an `&`
+collector operator met there is taken for an anchor mark (finding C08-6). -/
+def markFrom : Bool → List Seg → Bool
+  | _, [] => true
+  | mm, s :: r => !(mm && isInterColl s) && markFrom (mm && isEmptyColl s) r
+
+/-- Forward-slash texts the pinned parser reads back: NOT one or more leading empty collectors `()`
+directly followed by an intersection collector `&(…)` (finding C08-6: `/()&(b)` loses the `&`). -/
+def fslashExpressible (segs : List Seg) : Bool := markFrom true segs
+
+/-- the last segment of the list is a collector (`ac` for the empty list) -/
+def lastIsColl : Bool → List Seg → Bool
+  | ac, [] => ac
+  | _, s :: r => lastIsColl (isColl s) r
+
+/-- Segments whose canonical text can be appended behind a separator (`YAMLPath.append`).  Right
+after a separator the parser looks for an anchor mark, so an intersection collector `&(…)` appended
+there loses its operator (same cause as finding C08-6); and directly after a collector an anchor
+whose name starts with `+`, `-` or `&` (appended as `&+x`) is read as a collector operator. -/
+def appendable (afterColl : Bool) : Seg → Bool
+  | (.collector, .collector _ .inter) => false
+  | (.anchor, .str a) =>
+    !(afterColl && (a.head? = some '+' || a.head? = some '-' || a.head? = some '&'))
+  | _ => true
+
 /-- In dot notation a path whose text starts with `/` is, by the notation's own definition, a
 forward-slash path; such lists are outside dot notation. -/
 def dotExpressible (segs : List Seg) : Bool := (write false segs).head? ≠ some '/'
